@@ -280,8 +280,8 @@ func cmdCheck(args []string) int {
 		want = 2
 	}
 	ts := time.Now()
-	dischargeAll(all, prelude, workDir, *timeout, 6, want)
-	dischargeAll(covers, prelude, filepath.Join(workDir, "cover"), 10, 6, 1)
+	dischargeAll(all, prelude, workDir, *timeout, 5, want)
+	dischargeAll(covers, prelude, filepath.Join(workDir, "cover"), 2, 8, 1)
 	solveS := time.Since(ts).Seconds()
 
 	known, _ := loadKnownFindings()
@@ -312,6 +312,7 @@ func cmdCheck(args []string) int {
 	}
 	exit := 0
 	replayDir := filepath.Join(verifDir, "replays", id)
+	os.RemoveAll(replayDir)
 	var violations, knownHits []string
 	for _, o := range failed {
 		isKnown := false
